@@ -928,7 +928,26 @@ func runRoute(t *testing.T, out *vout, ids []string, root map[string]interface{}
 	defer v.close()
 	v.s.Emitted = make(chan interface{}, 1<<16)
 	v.s.Processing = make(chan interface{}, 1<<16)
-	for _, id := range ids {
+	// the crew is built by a history of additions and removals that ends with exactly [ids]: every third case adds a
+	// temporary machine and removes it again at some point of the build-up (routing must depend on the crew as
+	// it is, not on how it came about)
+	tmpAt, tmpGone := -1, -1
+	if h := len(vCanonText(ids)) + len(vCanonText(root)); len(ids) > 0 && h%3 == 0 {
+		tmpAt = h % len(ids)
+		tmpGone = tmpAt + (h/3)%(len(ids)-tmpAt)
+	}
+	for i, id := range ids {
+		if i == tmpAt {
+			if err := v.s.AddMachine(v.ctx, "rec", "tmp-machine", "", nil); err != nil {
+				t.Fatal(err)
+			}
+			out.count("crew-history:add-remove")
+		}
+		if i == tmpGone {
+			if err := v.s.RemMachine(v.ctx, "tmp-machine"); err != nil {
+				t.Fatal(err)
+			}
+		}
 		if err := v.s.AddMachine(v.ctx, "rec", id, "", nil); err != nil {
 			t.Fatal(err)
 		}
